@@ -34,6 +34,7 @@ func runC10(c *Ctx) {
 	c10StatObject(c, a, "C10-D3", "")
 	c10Clamp(c, a)
 	c10Decode(c, a)
+	c10EncodeGuards(c, a)
 }
 
 // c10Wrappers: part == "" checks every wrapper; "Reweight" / "ChangeMapping" only that one (C16 / C17 re-evaluate it
@@ -674,6 +675,67 @@ func c10Clamp(c *Ctx, a *sketchAnchors) {
 }
 
 // D1 (decoder arms) + D5 (final guard)
+// c10EncodeGuards: the decoder folds a decoded extreme with Add(value, 0) — harmless for a real extreme, but the
+// sentinels of an empty statistics object (+Inf minimum, −Inf maximum) would put Inf·0 = NaN into the sum and the
+// infinities into min/max of whoever decodes the payload. So the writer emits the min / max block only when the
+// value is not its sentinel, and each block carries the accumulator of its own flag.
+func c10EncodeGuards(c *Ctx, a *sketchAnchors) {
+	const rule = "C10-D5"
+	f := c.P.DeclaredMethod(a.Exact, "Encode")
+	if !c.mustFunc(rule, f, "(*Exact).Encode") {
+		return
+	}
+	st := c.P.NamedType(pkgStat, "SummaryStatistics")
+	minF, maxF := c.getterField(st, "Min"), c.getterField(st, "Max")
+	ps, _ := exec(c, f, nil, 1)
+	for _, side := range []struct{ flag, fld, inf string }{{"FlagMin", minF, "1"}, {"FlagMax", maxF, "-1"}} {
+		n := 0
+		bad := ""
+		for _, p := range ps {
+			wrote := false
+			var payload *Term
+			calls := p.Calls()
+			for i, e := range calls {
+				if e.Call.Op == "call" && strings.HasSuffix(e.Call.Sym, "encoding.EncodeFlag") && len(e.Call.Args) == 2 && e.Call.Args[1].Op == "global" && strings.HasSuffix(e.Call.Args[1].Sym, "."+side.flag) {
+					wrote = true
+					for _, e2 := range calls[i+1:] {
+						if e2.Call.Op == "call" && strings.Contains(e2.Call.Sym, "encoding.Encode") && !e2.Pure {
+							payload = e2.Call.Args[1]
+							break
+						}
+					}
+				}
+			}
+			if !wrote {
+				continue
+			}
+			n++
+			isVal := func(t *Term) bool {
+				t = t.unver()
+				return t.Op == "field" && t.Sym == side.fld || isMethodCall(t, strings.TrimPrefix(side.flag, "Flag"))
+			}
+			isInf := func(t *Term) bool {
+				return t.Op == "call" && t.Sym == "math.Inf" && len(t.Args) == 1 && t.Args[0].isConst(side.inf)
+			}
+			guarded := false
+			for _, cd := range p.Conds {
+				t := cd.Term
+				if (t.isBin("!=") || t.isBin("==")) && (isVal(t.Args[0]) && isInf(t.Args[1]) || isVal(t.Args[1]) && isInf(t.Args[0])) && cd.Taken == t.isBin("!=") {
+					guarded = true
+				}
+			}
+			if !guarded {
+				bad = "the " + side.flag + " block is written on a path that has not excluded the empty sentinel Inf(" + side.inf + "): [" + p.String() + "]"
+			}
+			if payload == nil || !isVal(payload) {
+				bad = firstNonEmpty(bad, fmt.Sprintf("the %s block carries %v", side.flag, payload))
+			}
+		}
+		c.R.check(bad == "" && n > 0, rule, shortFn(f)+"/"+side.flag+"/sentinel-excluded", shortFn(f), c.fpos(f),
+			"the "+side.flag+" block is written only when the value is not the empty sentinel, and carries that accumulator", firstNonEmpty(bad, fmt.Sprintf("%d writing path(s)", n)))
+	}
+}
+
 func c10Decode(c *Ctx, a *sketchAnchors) {
 	const rule = "C10-D1"
 	f := c.P.DeclaredMethod(a.Exact, "DecodeAndMergeWith")
